@@ -74,7 +74,7 @@ def delegate_cases():
     return out
 
 
-def scripts(pa, pb, ptun, pclosed, auth):
+def scripts(pa, pb, ptun, pclosed, auth, thorough=False):
     """-> list of (name, function(tag) -> steps)"""
     cred = (b'Proxy-Authorization: Basic ' + base64.b64encode(b'u:p') + b'\r\n') if auth else b''
     H = lambda p: b'127.0.0.1:%d' % p      # noqa
@@ -112,6 +112,14 @@ def scripts(pa, pb, ptun, pclosed, auth):
     #  a race between the client and the origin in every mode - see F20a - and under load it falls differently per run)
     S.append(('half-close after the response', lambda tag: [('send', fwd(b'GET', pb, b'/h')(tag)), ('read',), ('shut',), ('read',), ('close',)]))
     S.append(('truncated request then close', lambda tag: [('send', fwd(b'POST', pa, b'/t', b'0123456789')(tag)[:-4]), ('sleep', 0.2), ('close',)]))
+    huge = bytes((i * 131 + i // 977) % 251 for i in range(1 << 20))
+    S.append(('forward POST 1 MiB', lambda tag: [('send', fwd(b'POST', pa, b'/p1m', huge)(tag)), ('read',), ('close',)]))
+    S.append(('connect tunnel 1 MiB each way', lambda tag: [('send', b'CONNECT ' + H(ptun) + b' HTTP/1.1\r\nHost: ' + H(ptun) + b'\r\n' + cred + b'\r\n'), ('read',),
+                                                            ('send', b'big-' + tag + b'-' + huge), ('read',), ('close',)]))
+    S.append(('two requests in one segment', lambda tag: [('send', fwd(b'POST', pa, b'/q1', b'first-body')(tag) + fwd(b'POST', pa, b'/q2', b'second')(tag)),
+                                                          ('read',), ('read',), ('close',)]))
+    if thorough:
+        S.append(('idle connection is reaped', lambda tag: [('send', fwd(b'GET', pb, b'/idle')(tag)), ('read',), ('sleep', 7.5), ('read',), ('close',)]))
     if auth:
         S.append(('no credentials', lambda tag: [('send', b'GET http://' + H(pa) + b'/n?t=' + tag + b' HTTP/1.1\r\nHost: x\r\n\r\n'), ('read',), ('read',), ('close',)]))
         S.append(('wrong credentials', lambda tag: [('send', b'GET http://' + H(pa) + b'/w?t=' + tag + b' HTTP/1.1\r\nHost: x\r\nProxy-Authorization: Basic AAAA\r\n\r\n'),
@@ -120,6 +128,7 @@ def scripts(pa, pb, ptun, pclosed, auth):
 
 
 STATIC_DIR = {'path': ''}
+THOROUGH = {'on': False}
 
 
 def origin_behaviour_http(label):
@@ -140,7 +149,7 @@ def run_mode(mode, nacc, nwork, auth, origins, plan, out):
         return
     res = {}
     try:
-        S = dict(scripts(oa.port, ob.port, otun.port, pclosed, auth))
+        S = dict(scripts(oa.port, ob.port, otun.port, pclosed, auth, THOROUGH['on']))
         # warm-up: every acceptor / worker has served something before the measured conversations start
         for _ in range(2 * max(nacc, nwork) + 2):
             realnet.converse(px.port, [('send', b'GET /warm-up HTTP/1.1\r\nHost: w\r\n\r\n'), ('read',), ('close',)])
@@ -184,6 +193,7 @@ def big_origin(label):
 
 def run(chk):
     quick = chk.tier == 'quick'
+    THOROUGH['on'] = not quick
     rnd = random.Random(chk.seed * 67 + 15)
     # ---- design ------------------------------------------------------------------------------------------------------
     for locked in (True, False):
@@ -259,7 +269,7 @@ def run(chk):
         combos = [(1, 1, False), (2, 2, True)] if quick else [(1, 1, False), (2, 2, True), (4, 4, False), (1, 2, True), (2, 1, False)]
         tagn = [0]
         for nacc, nwork, auth in combos:
-            names = [n for n, _ in scripts(1, 1, 1, 1, auth)]
+            names = [n for n, _ in scripts(1, 1, 1, 1, auth, not quick)]
             plan = []
             for n in names:
                 tagn[0] += 1
